@@ -8,6 +8,8 @@ import (
 	"go/types"
 	"sort"
 	"strings"
+
+	"golang.org/x/tools/go/ssa"
 )
 
 func init() {
@@ -332,6 +334,119 @@ func checkC08(w *World, r *Report) {
 			return false
 		})
 		r.Check(ok, "R08.7", "escapeSequenceSubstitution flag discipline", fd.Pos(), "flag false after every non-empty piece", why)
+	})
+
+	r.Rule("R08.10", "a comment ends at the first terminator after its opener: where the opener's tail can be read as the head of the terminator (\"/*\" then \"/\"), the terminator search starts after the whole opener", 2)
+	r.guard("R08.10", func() { c08CommentSearchStart(w, r) })
+
+	r.Rule("R08.8", "every line of a multi-line double-quoted string contributes to the result: in trimWhitespace's per-line loop the accumulation (result += line, or Builder.WriteString) dominates every way back to the loop head — no line (blank ones included) is skipped together with its line break", 1)
+	r.Rule("R08.9", "lines are decoded independently: apart from the result and the loop counter, no value computed from one line is carried into the next iteration of trimWhitespace's per-line loop (every other loop-carried variable re-enters the loop as a constant)", 1)
+	r.guard("R08.8", func() {
+		f := w.SSAFunc(w.Func("parse", "trimWhitespace"))
+		if f == nil {
+			panic(undecided{"parse.trimWhitespace has no SSA body"})
+		}
+		loops := ssaLoops(f)
+		// the per-line loop: the one that indexes the result of strings.Split
+		var line *ssaLoop
+		for i := range loops {
+			for b := range loops[i].body() {
+				for _, in := range b.Instrs {
+					if ia, ok := in.(*ssa.IndexAddr); ok {
+						if c, ok := ia.X.(*ssa.Call); ok {
+							if sc := c.Call.StaticCallee(); sc != nil && sc.String() == "strings.Split" {
+								line = &loops[i]
+							}
+						}
+					}
+				}
+			}
+		}
+		if line == nil {
+			panic(undecided{"per-line loop over strings.Split(...) not found in trimWhitespace"})
+		}
+		body := line.body()
+		// accumulation instructions
+		var accBlocks []*ssa.BasicBlock
+		var accPhi *ssa.Phi
+		for _, in := range line.Header.Instrs {
+			phi, ok := in.(*ssa.Phi)
+			if !ok {
+				continue
+			}
+			if bt, ok := phi.Type().Underlying().(*types.Basic); !ok || bt.Kind() != types.String {
+				continue
+			}
+			for _, l := range line.Latches {
+				if bo, ok := phiEdge(phi, l).(*ssa.BinOp); ok && bo.Op == token.ADD && bo.X == phi {
+					accPhi = phi
+					accBlocks = append(accBlocks, bo.Block())
+				}
+			}
+		}
+		for b := range body {
+			for _, in := range b.Instrs {
+				if c, ok := in.(*ssa.Call); ok {
+					if sc := c.Call.StaticCallee(); sc != nil && (sc.String() == "(*strings.Builder).WriteString" || sc.String() == "(*bytes.Buffer).WriteString") {
+						accBlocks = append(accBlocks, b)
+					}
+				}
+			}
+		}
+		if len(accBlocks) == 0 {
+			r.Fail("R08.8", "trimWhitespace per-line loop", f.Pos(), "no accumulation of the decoded line found in the loop (result += line / WriteString)")
+		} else {
+			ok := true
+			why := ""
+			for _, l := range line.Latches {
+				dom := false
+				for _, a := range accBlocks {
+					if a.Dominates(l) {
+						dom = true
+					}
+				}
+				if accPhi != nil {
+					if bo, isAdd := phiEdge(accPhi, l).(*ssa.BinOp); !isAdd || bo.X != accPhi {
+						dom = false
+					}
+				}
+				if !dom {
+					ok = false
+					why = fmt.Sprintf("the loop head is re-entered from block %d (%s) without the line having been appended: that line and its line break vanish from the argument", l.Index, l.Comment)
+				}
+			}
+			r.Check(ok, "R08.8", "trimWhitespace per-line loop", f.Pos(), fmt.Sprintf("accumulation dominates all %d back edges", len(line.Latches)), why)
+		}
+		// R08.9
+		n := 0
+		for _, in := range line.Header.Instrs {
+			phi, ok := in.(*ssa.Phi)
+			if !ok {
+				continue
+			}
+			if phi == accPhi {
+				continue
+			}
+			// induction variable: back edge = phi + const
+			ind := true
+			for _, l := range line.Latches {
+				bo, ok := phiEdge(phi, l).(*ssa.BinOp)
+				if !ok || bo.Op != token.ADD || bo.X != phi {
+					ind = false
+				} else if _, isC := bo.Y.(*ssa.Const); !isC {
+					ind = false
+				}
+			}
+			if ind {
+				continue
+			}
+			n++
+			ok2 := loopCarriedIndependent(phi, *line)
+			r.Check(ok2, "R08.9", "trimWhitespace loop-carried "+phi.Comment, phi.Pos(), "re-enters the loop as a constant", "variable "+phi.Comment+" carries a value computed from one line into the following lines (e.g. a CRLF flag that is not reset chops the last character of later LF lines)")
+		}
+		if n == 0 {
+			r.OK("R08.9", "trimWhitespace: no loop-carried state", f.Pos(), "only the result and the loop counter are loop-carried")
+		}
 	})
 }
 
